@@ -28,6 +28,11 @@ CHECKS = {
   text="reader_chunk_independent: for every BeginString with the marker prefix, every group table, every list of structurally valid frames (WFFrame) that decode on their own, every list of marker-free junk blocks between and around them, and every partition of the byte stream into reads (any sizes incl. 1 byte and empty, boundaries anywhere incl. inside the marker, BodyLength or CheckSum), the model reader hands over exactly those frames in order with the messages the decoder gives for each frame alone, never raises or stalls, and ends with a buffer that is a proper prefix of '8=FIX.' and a suffix of the last junk block (reader_residual_buffer); corollaries: any two chunkings agree, 1-byte reads. The model is compared with the real socket_read_task on ~12k (quick) / ~67k (thorough) chunkings per run.",
   ref="DESIGN.md §6 C03",
   note=DEFAULT_NOTE + " The hypothesis that each WFFrame decodes on its own is discharged by decode_mkFrame (C01) + fieldLoop_no_raise (C10) for frames whose field loop ends with ckPassed; the connection-state test inside the loop and EOF (empty read) are outside the model."),
+ "C15": dict(
+  technique="Lean 4 proof (mutual structural induction over the nested message tree; sweep-loop invariants for the component resolver) + differential correspondence on schema-directed instances and single-fault mutants of all 133 message types + independent XML reference reader",
+  text="validate_iff_allowed: for every dictionary satisfying the decidable schemaWF (evaluated by the compiled model on FIX44.xml and TT-FIX44.xml every run), every value verdict and every message tree at any depth, validate = ok iff Allowed (spec written independently: type known, required members incl. groups present, every tag known and allowed incl. header/trailer, plain vs group kind, valid values, per group item: members only, dictionary order, first member, required members, recursively); validate_error_kind: every rejection is FIXMessageError, no hypotheses; single-fault corollaries per mutation class at any depth; resolve_perm: component resolution gives the same result for every permutation of the declaration list (no acyclicity hypothesis). The library's XML parser is compared with an independent reference reader, also under permuted <components>.",
+  ref="DESIGN.md §6 C15",
+  note=DEFAULT_NOTE + " Value validity is an abstract parameter here (C19 decides it); parse-time KeyError/ValueError on malformed dictionaries and the header-before-components order are not modelled; CheckSum(10) is exempt as in the code."),
 }
 NOT_YET = "check under construction in this build round (model and theorems planned in DESIGN.md §6); not yet claimed"
 
